@@ -4,7 +4,7 @@
    known q h = bits [0,8q] and [57,63] of h = what a bucket keeps next to an element of class q. *)
 From Coq Require Import ZArith List.
 From MomoCommon Require Import GenPrelude.
-From C12 Require Gen_Base Gen_O2 Gen_O2MP Gen_P4 Gen_One Known P4_Model P4_Slot P4_Bucket O2_Slot Chain O2_Bucket MP_Open2N2 TableO2 TableO2_Proofs TableP4 TableP4_Proofs TableOne TableOne_Proofs Refuted TableO2_Find SameCode Gen_O2set TableP4_Find Gen_P4A P4A_Refine Gen_P4A16 P4A_Refine16 Chains PtrState Gen_Ptr32 Gen_Ptr48 Gen_Ptr64 GensFind Gen_HSFind Gen_HSFindIn HSFind_Refine Gen_HSAdd Gen_HSReloc HSReloc_Refine Establish NoExn NoExnOne.
+From C12 Require Gen_Base Gen_O2 Gen_O2MP Gen_P4 Gen_One Known P4_Model P4_Slot P4_Bucket O2_Slot Chain O2_Bucket MP_Open2N2 TableO2 TableO2_Proofs TableP4 TableP4_Proofs TableOne TableOne_Proofs Refuted TableO2_Find SameCode Gen_O2set TableP4_Find Gen_P4A P4A_Refine Gen_P4A16 P4A_Refine16 Chains PtrState Gen_Ptr32 Gen_Ptr48 Gen_Ptr64 GensFind Gen_HSFind Gen_HSFindIn HSFind_Refine Gen_HSAdd Gen_HSReloc HSReloc_Refine Establish NoExn NoExnOne Gen_HSGrow.
 Import ListNotations.
 Local Open Scope Z_scope.
 
@@ -1316,3 +1316,46 @@ Theorem C12_one_element_found_after_growth_no_exception :
       (forall k, TableOne_Proofs.OPresent L told k -> TableOne_Proofs.OFound hash newL tnew k).
 Proof. exact NoExnOne.omigrate_found_ok. Qed.
 Print Assumptions C12_one_element_found_after_growth_no_exception.
+
+(* ---- Open2N2, migration into a NON-EMPTY newest table (chained generations, throwing full getter): no "Hash table is full" ----
+   NoExn.gtot gens = number of elements of all older generations, NoExn.tot (2^newL) tnew = number of elements of the newest table.
+   Hypothesis: their sum <= cap <= 3 * 2^newL (what HashSet guarantees: see the next two theorems).  Conclusion: migrate_gens returns
+   Ok (possibly with thrown = true: the full getter's exception, swallowed by pvRelocateItems()), the element count is preserved, and
+   Find over (newest table, remaining generations) returns every key. *)
+Theorem C12_open2n2_chained_generations_migration_no_exception :
+  forall hash, (forall k, 0 <= hash k < 2 ^ 64) -> forall newL budget, newL <= 63 ->
+  forall gens tnew calls cap, 0 <= newL -> TableO2_Proofs.gens_ok hash newL gens -> TableO2_Proofs.Tinv hash newL tnew ->
+    NoExn.gtot gens + NoExn.tot (Z.to_nat (2 ^ newL)) tnew <= cap -> cap <= 3 * 2 ^ newL ->
+    exists gens' tnew' calls' thrown, TableO2.migrate_gens hash gens tnew newL budget calls = Ok (gens', tnew', calls', thrown) /\
+      TableO2_Proofs.gens_ok hash newL gens' /\ TableO2_Proofs.Tinv hash newL tnew' /\ (thrown = false -> gens' = []) /\
+      NoExn.gtot gens' + NoExn.tot (Z.to_nat (2 ^ newL)) tnew' = NoExn.gtot gens + NoExn.tot (Z.to_nat (2 ^ newL)) tnew /\
+      (forall k, TableO2_Proofs.in_gens gens k \/ TableO2_Proofs.Present newL tnew k ->
+         exists r, TableO2.find_gens ((tnew', newL) :: rev gens') k (hash k) = Ok (Some r) /\ GensFind.gens_hit ((tnew', newL) :: rev gens') k r).
+Proof. exact NoExn.migrate_gens_find_ok. Qed.
+Print Assumptions C12_open2n2_chained_generations_migration_no_exception.
+
+(* the GENERATED growth decision of HashSet::pvAddGrow (Gen_HSGrow.pvAddGrow_loop0; C11 proves the same loop equal to its hand model:
+   C11_growth_decision_is_source): whenever it returns (cap, r), cap = CalcCapacity(2^r, maxCount) and cap > mCount *)
+Theorem C12_hashset_growth_decision_exceeds_count :
+  forall bm (tc : Z -> Z -> Z) fuel ht mc cap0 nl0 cap r,
+    Gen_HSGrow.pvAddGrow_loop0 bm tc fuel ht mc cap0 nl0 = Ok (None, (cap, r)) ->
+    mc < cap /\ cap = tc (wrapU 64 (Z.shiftl 1 r)) bm.
+Proof. exact NoExn.grow_decision. Qed.
+Print Assumptions C12_hashset_growth_decision_exceeds_count.
+
+(* ... hence: after the generated decision picked (cap, newL), with mCount counting the elements of all generations (the new element
+   already added to the newest table: <= mc + 1) and CalcCapacity(bc, 3) <= 3 * bc, the relocation of all older generations does not throw *)
+Theorem C12_open2n2_addgrow_migration_no_exception :
+  forall hash, (forall k, 0 <= hash k < 2 ^ 64) ->
+  forall (tc : Z -> Z -> Z) fuel ht mc cap0 nl0 cap newL budget gens tnew calls,
+    (forall bc, tc bc 3 <= 3 * bc) -> 0 <= newL <= 62 ->
+    Gen_HSGrow.pvAddGrow_loop0 3 tc fuel ht mc cap0 nl0 = Ok (None, (cap, newL)) ->
+    TableO2_Proofs.gens_ok hash newL gens -> TableO2_Proofs.Tinv hash newL tnew ->
+    NoExn.gtot gens + NoExn.tot (Z.to_nat (2 ^ newL)) tnew <= mc + 1 ->
+    exists gens' tnew' calls' thrown, TableO2.migrate_gens hash gens tnew newL budget calls = Ok (gens', tnew', calls', thrown) /\
+      TableO2_Proofs.gens_ok hash newL gens' /\ TableO2_Proofs.Tinv hash newL tnew' /\ (thrown = false -> gens' = []) /\
+      NoExn.gtot gens' + NoExn.tot (Z.to_nat (2 ^ newL)) tnew' = NoExn.gtot gens + NoExn.tot (Z.to_nat (2 ^ newL)) tnew /\
+      (forall k, TableO2_Proofs.in_gens gens k \/ TableO2_Proofs.Present newL tnew k ->
+         exists r, TableO2.find_gens ((tnew', newL) :: rev gens') k (hash k) = Ok (Some r) /\ GensFind.gens_hit ((tnew', newL) :: rev gens') k r).
+Proof. exact NoExn.migrate_gens_after_growth_decision. Qed.
+Print Assumptions C12_open2n2_addgrow_migration_no_exception.
